@@ -14,6 +14,12 @@
  *        OpenSSL's X509 API) carrying the same key.
  *  pem   key DER armoured with br_pem_encode(LINE64) == PEM_write_bio and
  *        br_pem_decoder gives back name and DER.
+ *  alt   legal private-key encodings that neither our encoders nor OpenSSL's
+ *        produce, built by hand: EC PKCS#8 whose inner ECPrivateKey carries
+ *        the [0] parameters (Java / BouncyCastle) -> same key; inner and outer
+ *        curve differ -> not decoded; ECPrivateKey without parameters, PKCS#8
+ *        with the curve only inside, RSA PKCS#8 without the NULL parameters ->
+ *        executed, judged only "if it decodes, the key is the encoded one".
  */
 #define OPENSSL_SUPPRESS_DEPRECATED
 #include "common.h"
@@ -275,6 +281,52 @@ static int pkey_err(void *c) { return br_pkey_decoder_last_error(c); }
 static int x509_err(void *c) { return br_x509_decoder_last_error(c); }
 
 /* ------------------------------------------------------------------ */
+/* hand-built DER (for encodings no encoder at hand produces) */
+
+static blob
+der_tlv(unsigned tag, const blob *parts, int nparts)
+{
+	size_t n = 0, h;
+	int i;
+	blob b;
+	unsigned char hdr[6];
+	for (i = 0; i < nparts; i ++) n += parts[i].n;
+	hdr[0] = (unsigned char)tag;
+	if (n < 0x80) { hdr[1] = (unsigned char)n; h = 2; }
+	else if (n < 0x100) { hdr[1] = 0x81; hdr[2] = (unsigned char)n; h = 3; }
+	else { HASSERT(n < 0x10000, "der-len"); hdr[1] = 0x82; hdr[2] = (unsigned char)(n >> 8); hdr[3] = (unsigned char)n; h = 4; }
+	b.n = h + n;
+	b.p = malloc(b.n);
+	memcpy(b.p, hdr, h);
+	for (i = 0, n = h; i < nparts; i ++) { if (parts[i].n) memcpy(b.p + n, parts[i].p, parts[i].n); n += parts[i].n; }
+	return b;
+}
+
+static blob
+der_const(const char *hex)
+{
+	blob b;
+	size_t i;
+	b.n = strlen(hex) / 2;
+	b.p = malloc(b.n ? b.n : 1);
+	for (i = 0; i < b.n; i ++) { unsigned v; sscanf(hex + 2 * i, "%2x", &v); b.p[i] = (unsigned char)v; }
+	return b;
+}
+
+static const char *OID_CURVE[3] = { "06082A8648CE3D030107", "06052B81040022", "06052B81040023" };
+#define OID_ECPUB   "06072A8648CE3D0201"
+#define OID_RSAENC  "06092A864886F70D010101"
+
+/* outcome of a decoder run that the header does not pin down: 0 = not decoded, 1 = decoded */
+static int
+skey_try(vf_rng *r, br_skey_decoder_context *dc, const unsigned char *der, size_t len)
+{
+	br_skey_decoder_init(dc);
+	push_chunks(r, skey_push, skey_err, dc, der, len);
+	return br_skey_decoder_last_error(dc) == 0 && br_skey_decoder_key_type(dc) != 0;
+}
+
+/* ------------------------------------------------------------------ */
 /* RSA */
 
 typedef struct { blob n, e, d, p, q, dp, dq, iq; } rsa_case;
@@ -434,6 +486,26 @@ rsa_run(vf_rng *r, const rsa_case *c, const char *cs, const unsigned char *fileb
 		skey_check_rsa(r, c, opk8, (size_t)opk8len, "openssl-pkcs8", cs);
 	} else {
 		vf_stat("unjudged_rsa_zero_modulus", 1);
+	}
+	if (bitlen(n.p, n.n) > 0) {
+		/* PKCS#8 whose AlgorithmIdentifier has no parameters at all (RFC 3279 wants NULL; some writers omit it) */
+		blob ver = der_const("020100"), oid = der_const(OID_RSAENC), alg, oct, in = { oraw, (size_t)orawlen }, parts[3], p8b;
+		br_skey_decoder_context *dc = malloc(sizeof *dc);
+		alg = der_tlv(0x30, &oid, 1);
+		oct = der_tlv(0x04, &in, 1);
+		parts[0] = ver; parts[1] = alg; parts[2] = oct;
+		p8b = der_tlv(0x30, parts, 3);
+		vf_stat("alt_rsa_pkcs8_no_null", 1);
+		if (skey_try(r, dc, p8b.p, p8b.n)) {
+			vf_stat("alt_rsa_pkcs8_no_null_decoded", 1);
+			free(dc);
+			skey_check_rsa(r, c, p8b.p, p8b.n, "pkcs8-without-null-parameters", cs);
+		} else {
+			vf_stat("unjudged_rsa_pkcs8_no_null_rejected", 1);
+			vf_distinct("obs_rsa_pkcs8_no_null_err", "%d", br_skey_decoder_last_error(dc));
+			free(dc);
+		}
+		free(ver.p); free(oid.p); free(alg.p); free(oct.p); free(p8b.p);
 	}
 	if (braw) pem_key_check(r, BR_ENCODE_PEM_RSA_RAW, braw, brawlen, "rsa-raw", cs);
 	if (bpk8) pem_key_check(r, BR_ENCODE_PEM_PKCS8, bpk8, bpk8len, "rsa-pkcs8", cs);
@@ -709,6 +781,118 @@ ossl_decode_ec(const unsigned char *der, size_t len, int pk8, int ci, blob x,
 	EVP_PKEY_free(ek);
 }
 
+/*
+ * Encodings of an EC private key that no encoder at hand writes. inner = ECPrivateKey { 1, x padded to the order
+ * length, [0] curve OID (optional), [1] public point (optional) }; PKCS#8 = { 0, { id-ecPublicKey, curve OID
+ * (optional) }, OCTET STRING { inner } }.
+ */
+static void
+ec_alt_encodings(vf_rng *r, int ci, blob x, const unsigned char *q, size_t qlen, EC_KEY *ek, const char *cs)
+{
+	size_t olen = CURVES[ci].olen;
+	blob xp, ver1 = der_const("020101"), ver0 = der_const("020100"), ecpub = der_const(OID_ECPUB);
+	blob oidc[3], xo, pubbits, pub1, qb;
+	int i, withpub, oc;
+	br_skey_decoder_context *dc = malloc(sizeof *dc);
+
+	xp.n = olen; xp.p = calloc(1, olen);
+	{ const unsigned char *xs = x.p; size_t xn = x.n; strip(&xs, &xn); HASSERT(xn <= olen, "ec-x-len"); memcpy(xp.p + olen - xn, xs, xn); }
+	for (i = 0; i < 3; i ++) oidc[i] = der_const(OID_CURVE[i]);
+	xo = der_tlv(0x04, &xp, 1);
+	qb.n = qlen + 1; qb.p = malloc(qb.n); qb.p[0] = 0; memcpy(qb.p + 1, q, qlen);
+	pubbits = der_tlv(0x03, &qb, 1);
+	pub1 = der_tlv(0xA1, &pubbits, 1);
+
+	for (withpub = 0; withpub < 2; withpub ++) {
+		for (oc = -1; oc < 3; oc ++) {          /* curve named inside: none, or curve oc */
+			blob par0 = { NULL, 0 }, parts[4], inner, oct;
+			int np = 0, outer;
+			parts[np ++] = ver1; parts[np ++] = xo;
+			if (oc >= 0) { par0 = der_tlv(0xA0, &oidc[oc], 1); parts[np ++] = par0; }
+			if (withpub) parts[np ++] = pub1;
+			inner = der_tlv(0x30, parts, np);
+			oct = der_tlv(0x04, &inner, 1);
+			if (oc == ci && withpub) {
+				/* harness sanity: this is byte for byte what OpenSSL writes for the raw form */
+				unsigned char *o = NULL;
+				int ol;
+				EC_KEY_set_enc_flags(ek, 0);
+				ol = i2d_ECPrivateKey(ek, &o);
+				HASSERT(ol > 0 && (size_t)ol == inner.n && memcmp(o, inner.p, inner.n) == 0, "ec-inner-vs-openssl");
+				OPENSSL_free(o);
+			}
+			if (oc < 0) {
+				/* raw ECPrivateKey without parameters: nothing names the curve; the header only says that raw EC keys
+				   are recognised */
+				vf_stat("alt_ec_raw_no_params", 1);
+				if (skey_try(r, dc, inner.p, inner.n)) {
+					const br_ec_private_key *k = br_skey_decoder_get_ec(dc);
+					vf_stat("unjudged_ec_raw_no_params_decoded", 1);
+					if (k == NULL || !eq_stripped(k->x, k->xlen, x.p, x.n)) {
+						vf_viol("C18:skey:ec-field:raw-without-parameters", "decoded EC private key differs from the encoded one",
+							"%s der=%s", cs, vf_hexs(inner.p, inner.n));
+					}
+				} else {
+					vf_stat("unjudged_ec_raw_no_params_rejected", 1);
+					vf_distinct("obs_ec_raw_no_params_err", "%d", br_skey_decoder_last_error(dc));
+				}
+			}
+			for (outer = -1; outer < 3; outer ++) {   /* curve named in the AlgorithmIdentifier: none, or curve outer */
+				blob ap[2], alg, pp[3], p8b;
+				if (oc < 0 && outer < 0) continue;      /* no curve anywhere */
+				if (oc < 0 && outer != ci) continue;    /* (outer only: what the encoders write, covered above) */
+				if (oc < 0) continue;
+				ap[0] = ecpub; if (outer >= 0) ap[1] = oidc[outer];
+				alg = der_tlv(0x30, ap, outer >= 0 ? 2 : 1);
+				pp[0] = ver0; pp[1] = alg; pp[2] = oct;
+				p8b = der_tlv(0x30, pp, 3);
+				if (outer == ci && oc == ci) {
+					/* the form Java / BouncyCastle write: must give the same key; OpenSSL reads it too */
+					const unsigned char *pq = p8b.p;
+					PKCS8_PRIV_KEY_INFO *p8 = d2i_PKCS8_PRIV_KEY_INFO(NULL, &pq, (long)p8b.n);
+					EVP_PKEY *e = p8 ? EVP_PKCS82PKEY(p8) : NULL;
+					EC_KEY *k2 = e ? EVP_PKEY_get1_EC_KEY(e) : NULL;
+					HASSERT(k2 != NULL && BN_cmp(EC_KEY_get0_private_key(k2), EC_KEY_get0_private_key(ek)) == 0, "ec-pkcs8-inner-params-vs-openssl");
+					EC_KEY_free(k2); EVP_PKEY_free(e); PKCS8_PRIV_KEY_INFO_free(p8);
+					vf_stat("cmp_skey_ec_pkcs8_inner_params", 1);
+					skey_check_ec(r, CURVES[ci].curve, x, olen, p8b.p, p8b.n,
+						withpub ? "pkcs8-inner-parameters-and-public-key" : "pkcs8-inner-parameters", cs);
+				} else if (outer >= 0 && oc != outer) {
+					/* the two places name different curves: no key may come out of that */
+					vf_stat("cmp_skey_ec_curve_conflict", 1);
+					if (skey_try(r, dc, p8b.p, p8b.n)) {
+						const br_ec_private_key *k = br_skey_decoder_get_ec(dc);
+						vf_viol("C18:skey:ec-curve-conflict-accepted",
+							"br_skey_decoder returns a key from a PKCS#8 object whose AlgorithmIdentifier and inner ECPrivateKey name different curves",
+							"%s outer=%d inner=%d decoded_curve=%d der=%s", cs, CURVES[outer].curve, CURVES[oc].curve,
+							k ? k->curve : -1, vf_hexs(p8b.p, p8b.n));
+					} else {
+						vf_distinct("obs_ec_curve_conflict_err", "%d", br_skey_decoder_last_error(dc));
+					}
+				} else if (outer < 0 && oc == ci) {
+					/* the curve is named only inside (RFC 5480 wants it in the AlgorithmIdentifier): not documented */
+					vf_stat("alt_ec_pkcs8_curve_only_inside", 1);
+					if (skey_try(r, dc, p8b.p, p8b.n)) {
+						const br_ec_private_key *k = br_skey_decoder_get_ec(dc);
+						vf_stat("unjudged_ec_pkcs8_curve_only_inside_decoded", 1);
+						if (k == NULL || k->curve != CURVES[ci].curve || !eq_stripped(k->x, k->xlen, x.p, x.n)) {
+							vf_viol("C18:skey:ec-field:pkcs8-curve-only-inside", "decoded EC private key differs from the encoded one",
+								"%s der=%s", cs, vf_hexs(p8b.p, p8b.n));
+						}
+					} else {
+						vf_stat("unjudged_ec_pkcs8_curve_only_inside_rejected", 1);
+					}
+				}
+				free(alg.p); free(p8b.p);
+			}
+			free(par0.p); free(inner.p); free(oct.p);
+		}
+	}
+	free(xp.p); free(ver1.p); free(ver0.p); free(ecpub.p); free(xo.p); free(qb.p); free(pubbits.p); free(pub1.p);
+	for (i = 0; i < 3; i ++) free(oidc[i].p);
+	free(dc);
+}
+
 /* x: scalar as handed to the library (xlen <= olen) */
 static void
 ec_run(vf_rng *r, int ci, blob x, const char *cs, const unsigned char *filebytes, size_t filelen)
@@ -785,6 +969,7 @@ ec_run(vf_rng *r, int ci, blob x, const char *cs, const unsigned char *filebytes
 		free(ours);
 		OPENSSL_free(ossl);
 	}
+	ec_alt_encodings(r, ci, x, qb, qlen, ek, cs);
 	pkey_check_ec(r, ek, ci, cs);
 
 	/* a curve without a known OID: documented to return 0 */
